@@ -269,6 +269,11 @@ func typeFacts(v Val) []*Term {
 			}
 		case CArrID, CRef, CMap:
 			out = append(out, Ge(v.C[i], IntLit(0)))
+		case CIfVal:
+			// a nil interface value has no payload
+			if i > 0 && cs[i-1].Kind == CIfTag {
+				out = append(out, Implies(Eq(v.C[i-1], IntLit(0)), Eq(v.C[i], IntLit(0))))
+			}
 		}
 	}
 	return out
